@@ -707,6 +707,12 @@ def run(ctx):
         'engineio.generate_id() never repeats an id: `Sio.Rooms.apply` ignores a connect whose id is in use',
         'python-engineio queues a packet on the addressed socket or drops it if the socket is closed',
     ])
+    if ctx.thorough:
+        ok, out = C.leanchecker(['Sio.Props.C03'])
+        ctx.notes.append('leanchecker Sio.Props.C03: %s' % ('ok' if ok else 'FAILED'))
+        if not ok:
+            ctx.violation('proof', 'leanchecker rejected Sio.Props.C03: ' + out, {'theorem_or_build': out},
+                          no_input=True)
     rng = ctx.rng
     n_hist = ctx.scale(1200, 24000)
     deadline = ctx.t0 + ctx.scale(50, 540)
